@@ -7,6 +7,7 @@ import (
 	"flag"
 	"fmt"
 	"os"
+	"reflect"
 	"strings"
 	"sync"
 	"sync/atomic"
@@ -402,7 +403,7 @@ func (b *bhsBackend) run(r *bhsRow) (bhsObs, error) {
 			if r.Row.Ks != "" {
 				ks = r.Row.Ks
 			}
-			_, err := proxycore.ConnectSession(sctx, cl, proxycore.SessionConfig{
+			scfg := proxycore.SessionConfig{
 				ReconnectPolicy:   proxycore.NewReconnectPolicyWithDelays(20*time.Millisecond, 40*time.Millisecond),
 				NumConns:          1,
 				Keyspace:          ks,
@@ -411,8 +412,13 @@ func (b *bhsBackend) run(r *bhsRow) (bhsObs, error) {
 				ConnectTimeout:    3 * time.Second,
 				HeartBeatInterval: 30 * time.Second,
 				IdleTimeout:       60 * time.Second,
-				Compression:       r.Row.Comp,
-			})
+			}
+			// (set by name: this driver is shared by many checks and must keep compiling when the way a session is told
+			// its compression changes)
+			if f := reflect.ValueOf(&scfg).Elem().FieldByName("Compression"); f.IsValid() && f.Kind() == reflect.String {
+				f.SetString(r.Row.Comp)
+			}
+			_, err := proxycore.ConnectSession(sctx, cl, scfg)
 			ids := b.connsAfter(from)
 			o := bhsObs{}
 			if len(ids) > 0 {
